@@ -36,6 +36,7 @@ type Query struct {
 type FuncCtx struct {
 	eng        *Engine
 	curPos     token.Pos
+	curInstr   ssa.Instruction
 	openChans  map[string]bool // channel terms read from fields declared openchan
 	fn         *ssa.Function
 	fc         *FuncContract
